@@ -235,6 +235,10 @@ def witness_cases():
     import os
     path = os.path.join(os.path.dirname(os.path.abspath(__file__)), "tree_witnesses.ops")
     cases, cur = [], []
+    shift = 100          # room below the smallest key for the tail
+    def sh(o):
+        w = o.split()
+        return "%s %d" % (w[0], int(w[1]) + shift) if len(w) == 2 and w[0] in ("ins", "rem") else o
     for ln in open(path).read().split("\n") + [""]:
         ln = ln.strip()
         if ln.startswith("#"):
@@ -242,7 +246,12 @@ def witness_cases():
         if not ln:
             if cur:
                 i = len(cases)
-                ops = [cur[0]] + [x for o in cur[1:] for x in (o, "shape")]
+                keys = [int(o.split()[1]) + shift for o in cur[1:] if o.startswith("ins ")]
+                # tail: growth below, above and inside the key range and a few removals, so that a balance factor / colour left
+                # wrong by the case under test has consequences the independent oracles of `shape` can see
+                mid = sorted(set(keys))[len(set(keys)) // 2]
+                tail = ["ins %d" % k for k in (99, 98, 97, 400, 401, 402)] + ["rem %d" % k for k in keys[:3]] + ["ins %d" % mid, "ins 96", "ins 403", "rem 98", "rem 401"]
+                ops = [cur[0]] + [x for o in [sh(o) for o in cur[1:]] + tail for x in (o, "shape")]
                 cases.append(ops + ["each 0", "each %d" % (1 + i % 5), "shape", "count"] + (["clear", "shape"] if i % 2 == 0 else ["free"]))
             cur = []
             continue
